@@ -641,7 +641,7 @@ func c19R2(p *core.Program, r *core.Report) {
 		// the `urn` attribute: a block comparing the key with "urn" must lead to a policy test
 		_ = keyArg
 	}
-	r.Require("urn_condition_constructions", n, 4)
+	r.Require("urn_condition_constructions", n, 2)
 	// urn attribute guard
 	vc := p.Method("contactql", "visitor", "VisitCondition")
 	if vc != nil {
